@@ -77,6 +77,7 @@ type Engine struct {
 	initDone    map[*ssa.Package]bool
 	tolerant    int // >0 while executing package init code
 	selectN     int
+	abstractBig bool
 	shadow      map[string]int64  // high-level nondet values to follow (debug)
 	shadowAsg   map[string]uint64 // solver-variable assignment derived from shadow
 	shadowMemo  map[int]uint64
@@ -611,6 +612,9 @@ func (fr *frame) readPath(cur Value, path []PathElem, g *Term, pos token.Pos) Va
 		}
 		return fr.readPath(s.f[pe.field], path[1:], g, pos)
 	}
+	if _, abs := cur.(AbstractArr); abs {
+		return BV(8, 0)
+	}
 	arr := cur.(ArrayV)
 	n := len(arr.e)
 	if pe.idx.konst {
@@ -670,6 +674,9 @@ func (fr *frame) writePath(cur Value, path []PathElem, v Value, g *Term, pos tok
 		n := StructV{f: append([]Value(nil), s.f...)}
 		n.f[pe.field] = fr.writePath(s.f[pe.field], path[1:], v, g, pos)
 		return n
+	}
+	if _, abs := cur.(AbstractArr); abs {
+		return cur
 	}
 	arr := cur.(ArrayV)
 	n := ArrayV{e: append([]Value(nil), arr.e...)}
@@ -765,6 +772,9 @@ func (fr *frame) sliceStore(s SliceV, i *Term, v Value, g *Term, pos token.Pos) 
 func (fr *frame) boundOf(n *Term, g *Term, what string, pos token.Pos) int {
 	if m, ok := maxConst(n); ok && m <= 4096 {
 		return int(m)
+	}
+	if fr.e.abstractBig {
+		return -1
 	}
 	// symbolic, unbounded: use the default capacity and record a limit obligation
 	c := fr.e.defaultCap
@@ -900,7 +910,7 @@ func (fr *frame) bytesToString(s SliceV, g *Term, pos token.Pos) StringV {
 	capN := 0
 	for _, al := range s.alts {
 		if al.obj != nil {
-			if l := len(al.obj.val.(ArrayV).e); l > capN {
+			if l := arrLen(al.obj); l > capN {
 				capN = l
 			}
 		}
